@@ -241,7 +241,19 @@ G3Sibs == {[type |-> "string"], [maximum |-> R_0], [not |-> TrueS], [allOf |-> <
            [id |-> IdOf(URI("http", "h1", TRUE, <<"other.json">>))], [const |-> Null], [minItems |-> 9],
            [definitions |-> [x |-> FalseS]], [depStrings |-> [a |-> <<"q">>]]}
 PtrDefn(nm) == FragPtr(<<SegN("definitions", nm)>>)
+G3IdBesideRef ==
+  \* a fragment-only $id BESIDE $ref is ignored like every other sibling: it declares no anchor, so the
+  \* genuine #foo (before or after it in every walk order) is the one designated
+  {[definitions |-> [a |-> [id |-> IdFrag("foo"), ref |-> LocalRef(PtrDefn("str"))], b |-> [id |-> IdFrag("foo")] @@ IntS, str |-> StrS],
+    properties |-> [a |-> [ref |-> LocalRef(FragName("foo"))]]],
+   [definitions |-> [a |-> [id |-> IdFrag("foo")] @@ IntS, b |-> [id |-> IdFrag("foo"), ref |-> LocalRef(PtrDefn("str"))], str |-> StrS],
+    properties |-> [a |-> [ref |-> LocalRef(FragName("foo"))]]],
+   [definitions |-> [str |-> StrS, z |-> [id |-> IdFrag("foo")] @@ IntS], id |-> IdFrag("foo"), ref |-> LocalRef(PtrDefn("str")),
+    properties |-> [a |-> [ref |-> LocalRef(FragName("foo"))]]],
+   [definitions |-> [a |-> [items |-> [id |-> IdFrag("foo"), ref |-> LocalRef(PtrDefn("str"))]], b |-> [id |-> IdFrag("foo")] @@ IntS, str |-> StrS],
+    items |-> [ref |-> LocalRef(FragName("foo"))]]}
 G3Docs(z) ==
+  G3IdBesideRef \cup
   {[definitions |-> [x |-> d], ref |-> LocalRef(PtrDefn("x"))] @@ sib : d \in DefPool, sib \in G3Sibs}
   \cup {[definitions |-> [x |-> d], properties |-> [a |-> [ref |-> LocalRef(PtrDefn("x"))] @@ sib]] : d \in {IntS, FalseS}, sib \in G3Sibs}
   \cup {[definitions |-> [x |-> d @@ [id |-> IdFrag("foo")]], ref |-> LocalRef(FragName("foo"))] : d \in DefPool \ {FalseS}}
@@ -359,7 +371,8 @@ F6Vals ==
    Obj([a |-> EmptyObj]), Obj([a |-> Obj([a |-> Null])]), Obj([a |-> Obj([b |-> Null])]), Obj([a |-> EmptyArr]), Obj([a |-> Arr(<<Null>>)]),
    Arr(<<Null>>), Arr(<<Num(R_1)>>), Arr(<<Null, Null>>), Arr(<<Num(R_1), Null>>), Arr(<<Null, Num(R_1)>>), Arr(<<EmptyObj>>),
    Arr(<<EmptyArr>>), Arr(<<Obj([a |-> Null])>>), Arr(<<Obj([b |-> Null])>>), Arr(<<Arr(<<Null>>)>>), Arr(<<Str("a")>>), Arr(<<Bool(FALSE)>>)}
-F6Small == {Null, EmptyObj, Obj([a |-> Null]), Obj([b |-> Null]), Obj([a |-> Num(R_1)]), Arr(<<Null>>), EmptyArr, Num(R_1)}
+F6Small == {Null, EmptyObj, Obj([a |-> Null]), Obj([b |-> Null]), Obj([a |-> Num(R_1)]), Arr(<<Null>>), EmptyArr, Num(R_1),
+            Num(R_0), Arr(<<Num(R_0)>>), Obj([a |-> Num(R_0)])}
 F6Atoms == {[const |-> c] : c \in F6Vals} \cup {[enum |-> <<c, d>>] : c \in F6Small, d \in F6Small}
 F6Schemas(z) == UNION {F6Atoms, {[not |-> a] : a \in F6Atoms}, {[properties |-> [a |-> a]] : a \in F6Atoms},
                        {[items |-> a] : a \in F6Atoms}, {[contains |-> a] : a \in F6Atoms},
